@@ -63,6 +63,13 @@ var c15Fragments = []struct {
 
 var c15OutsideFrags = []string{"\x00", "\x01", "\x0b", "\x1f", "\xff", "\xc3", "\xed\xa0\x80", "\uFFFE", "\uFFFF", "\xf4\x90\x80\x80"}
 
+// the document returned by the previous build and what it serialised to at that moment
+var c15Prev struct {
+	doc *etree.Document
+	out string
+	api string
+}
+
 // c15String: a realistic base value with 0..3 repertoire fragments spliced in, or a string made of fragments only.
 func c15String(r *rand.Rand, base string, hostile int) bldStr {
 	g := bldStr{}
@@ -721,6 +728,18 @@ func runC15(c *Ctx, n int) {
 				out, err = doc.WriteToString()
 			}
 		}()
+		// the document built BEFORE this one is the caller's: building another message (same or another SP object, same or
+		// another kind) must not change what it serialises to
+		if c15Prev.doc != nil {
+			if again, e2 := c15Prev.doc.WriteToString(); e2 != nil || again != c15Prev.out {
+				c.Violate("spec", "earlier-document-changed", "a document returned by "+c15Prev.api+" serialises differently after a later message was built (state shared between documents)",
+					map[string]interface{}{"first_api": c15Prev.api, "serialised_when_returned": c15Prev.out, "serialised_after_the_next_build": again, "next_api": k.API})
+			}
+		}
+		c15Prev.doc, c15Prev.out, c15Prev.api = nil, "", ""
+		if err == nil && doc != nil {
+			c15Prev.doc, c15Prev.out, c15Prev.api = doc, out, k.API
+		}
 		cls := bldClassKey(k)
 		opts := fmt.Sprintf("f%vp%vn%vr%v/%d/i%v", k.Force, k.Passive, k.NameIDFormat.V != "", k.HasRAC, len(k.Contexts), k.SPIssuer.V != "")
 		c.Eval(cls != "" || k.Force || k.Passive || k.HasRAC, k.Kind+"|"+cls+"|"+opts+"|"+k.API)
